@@ -1621,9 +1621,20 @@ class JSONVisitor:
     def validate_relative_url(self, url_argument: str, line: int) -> None:
         """Validate relative URL points to page within current docs site.
         URLs can be of the form /foo, foo, /foo/"""
-        target_path = util.add_doc_target_ext(
-            url_argument, self.docpath, self.project_config.source_path
-        )
+        # As with the doc role, the site root is its index page
+        is_root = PurePosixPath(url_argument) == PurePosixPath("/")
+        try:
+            target_path = util.add_doc_target_ext(
+                "/index" if is_root else url_argument,
+                self.docpath,
+                self.project_config.source_path,
+            )
+        except ValueError:
+            # A URL such as "." has no file name to extend
+            self.diagnostics.append(
+                CannotOpenFile(Path(url_argument), os.strerror(errno.ENOENT), line)
+            )
+            return
 
         if not self.is_file_dependency(target_path):
             err_message = (
